@@ -254,7 +254,10 @@ class ReversedColumnCategorizer(ColumnCategorizer):
         self._doccount = reader.doc_count_all()
 
         global_creader = reader.column_reader(fieldname, translate=False)
-        self._values = sorted(set(global_creader))
+        # Segments without a column file yield the default value, which the
+        # global column reader (it skips those segments) may never produce
+        self._values = sorted(set(global_creader)
+                              | set([self._column_type.default_value()]))
 
     def key_for(self, matcher, segment_docnum):
         value = self._creader[segment_docnum]
